@@ -4,8 +4,9 @@
    are constructed: Sel / Dist from the first-visit spanning tree of the walk (WalkTree.v), Bit / Comp from the binary
    expansion of the multiplicity.  Beyond the caps completeness is false (WalkExamples.kfdc_exact_refuted, finding
    rep_cap_from_own_flow).
-   Scope of this file: instances without subset constraints (all_cons = []), without safety fixing (walks_to_fix = [],
-   hence no zero rows, no >= m / = 1 rows or queued bounds, no Pi shortcuts) and without given weights. *)
+   Scope: all option vectors.  Subset constraints (incl. the safe sequences appended by the constraint variants) must be
+   realised by the walks; the safety fixing (zero rows, >= m / = 1 rows or queued bounds, Pi shortcuts) must be respected
+   by them (that a minimum decomposition exists that does so is the subject of C05); given weights must be the weights. *)
 From Coq Require Import List NArith ZArith QArith Qround Lqa Bool Arith Lia Permutation.
 Import ListNotations.
 From FP Require Import Lin Blocks BlocksProofs PathEnc PathEncProofs Euler EulerProofs1 EulerProofs4
@@ -88,11 +89,8 @@ Section Complete.
   Let wm := kfdc_wmax I.
   Variable P : N -> list node.          (* the full walk of layer i: s ... t *)
   Variable wt : N -> Q.                  (* its weight *)
+  Variable ch : N -> N.                  (* the layer chosen to realise subset constraint j *)
   Hypothesis WFS : wf_stg G.
-  Hypothesis Hae : o_allow_empty (c_opts I) = false.
-  Hypothesis Hfix : c_fix I = [].
-  Hypothesis Hcons : all_cons WI = [].
-  Hypothesis Hgiven : c_given I = None.
 
   Definition mult (i : N) (e : PathEnc.edge) : Z := multz (pairs (P i)) e.
 
@@ -100,10 +98,24 @@ Section Complete.
   Hypothesis Hw : forall i, In i (layers k) -> (0 <= wt i <= wm)%Q /\ (c_int I = true -> is_int (wt i)).
   (* the caps of the model *)
   Hypothesis Hcap : forall i e, In i (layers k) -> In e E -> (inject_Z (mult i e) <= cap WI e)%Q.
-  Hypothesis Hbits : forall i e, In i (layers k) -> In e (kept_edges I) -> (mult i e < 2 ^ Z.of_nat (num_bits (prod_ub I e)))%Z.
+  Hypothesis Hbits : forall i e, In i (layers k) -> In e (kept_edges I) -> prod_kind I e i = 2%N ->
+      (mult i e < 2 ^ Z.of_nat (num_bits (prod_ub I e)))%Z.
   Hypothesis Hprod : forall i e, In i (layers k) -> In e (kept_edges I) -> (wt i * inject_Z (mult i e) <= wm)%Q.
   Hypothesis Hflow : forall e, In e (kept_edges I) ->
       (sumq (fun i => wt i * inject_Z (mult i e)) (layers k) == flow_of I e)%Q.
+
+  (* the walks respect the safety fixing of the instance *)
+  Hypothesis Hzero : forall e i, In (e, i) (zero_set WI) -> mult i e = 0%Z.
+  Hypothesis Hfixed : forall e i m, In (e, i, m) (fix_items WI) ->
+      (is_scc_edge G e = true -> o_geq (c_opts I) = true -> (Z.of_nat m <= mult i e)%Z) /\
+      (is_scc_edge G e = false -> mult i e = 1%Z).
+  (* they realise the subset constraints: constraint j by the walk of layer ch j *)
+  Definition usedq (i : N) (e : PathEnc.edge) : Q := indq (0 <? mult i e)%Z.
+  Hypothesis Hcov : forall j c, nth_error (all_cons WI) j = Some c ->
+      In (ch (N.of_nat j)) (layers k) /\
+      (qnat (length (nodup_e c)) * c_cov I <= sumq (usedq (ch (N.of_nat j))) (nodup_e c))%Q.
+  (* given weights are the weights *)
+  Hypothesis Hgiven : forall ws j w, c_given I = Some ws -> nth_error ws j = Some w -> (wt (N.of_nat j) == w)%Q.
 
   Let WF : wf_graph G := wfs_graph G WFS.
 
@@ -116,8 +128,10 @@ Section Complete.
         if (vfam x =? fEdge)%N then inject_Z (mult i (u, v))
         else if (vfam x =? fSel)%N then indq (selb (rev (P i)) (u, v))
         else if (vfam x =? fPi)%N then (if keptb (u, v) then wt i * inject_Z (mult i (u, v)) else 0)%Q
+        else if (vfam x =? fUsed)%N then usedq i (u, v)
         else 0%Q
-    | [v; i] => if (vfam x =? fDist)%N then inject_Z (Z.of_nat (rankf (rev (P i)) v)) else 0%Q
+    | [v; i] => if (vfam x =? fDist)%N then inject_Z (Z.of_nat (rankf (rev (P i)) v))
+                else if (vfam x =? fR)%N then indq (v =? ch i)%N else 0%Q
     | [i] => if (vfam x =? fW)%N then wt i else 0%Q
     | [f; u; v; i; j] =>
         if ((vfam x =? fBit)%N && (f =? fPi)%N)%bool then nth (N.to_nat j) (bitsof i (u, v)) 0%Q
@@ -132,6 +146,8 @@ Section Complete.
   Lemma asg_sel' u v i : asg (Sel u v i) = indq (selb (rev (P i)) (u, v)). Proof. reflexivity. Qed.
   Lemma asg_dist v i : asg (Dist v i) = inject_Z (Z.of_nat (rankf (rev (P i)) v)). Proof. reflexivity. Qed.
   Lemma asg_w i : asg (W i) = wt i. Proof. reflexivity. Qed.
+  Lemma asg_used e i : asg (uvar e i) = usedq i e. Proof. destruct e; reflexivity. Qed.
+  Lemma asg_r i j : asg (R i j) = indq (i =? ch j)%N. Proof. reflexivity. Qed.
   Lemma asg_pi e i : asg (pvar e i) = (if keptb e then wt i * inject_Z (mult i e) else 0)%Q. Proof. destruct e; reflexivity. Qed.
   Lemma asg_bit e i j : asg (Bit (pvar e i) (N.of_nat j)) = nth j (bitsof i e) 0%Q.
   Proof. destruct e. unfold asg, Bit, pvar, Pi. cbn [vidx vfam app]. cbn. rewrite Nat2N.id. reflexivity. Qed.
@@ -170,13 +186,15 @@ Section Complete.
   (* ---- the walk rows ---- *)
   Lemma row_17a_sat i : In i (layers k) -> sat_row asg (row_17a G (o_allow_empty (c_opts I)) i).
   Proof.
-    intros Hi. rewrite Hae. unfold sat_row, row_17a, mkrow. cbn [sns lhs rhs].
-    rewrite (eval_out_terms G WF asg (fun u v => Edge u v i) 1%Q (g_src G)). cbv beta.
-    rewrite (edge_sum_q i). fold E s. rewrite (sum_outs i s Hi).
-    destruct (P_shape i Hi) as (r & Er & Hl). rewrite Er.
-    rewrite (outd_s_one s t r (PathEncProofs.wf_st G WF) Hl).
-    - reflexivity.
-    - intros e He. rewrite <- Er in He. apply (pairs_no_in_s i e Hi He).
+    intros Hi.
+    assert (X : (eval asg (map (fun v => (Edge (g_src G) v i, 1%Q)) (succs G (g_src G))) == 1)%Q).
+    { rewrite (eval_out_terms G WF asg (fun u v => Edge u v i) 1%Q (g_src G)). cbv beta.
+      rewrite (edge_sum_q i). fold E s. rewrite (sum_outs i s Hi).
+      destruct (P_shape i Hi) as (r & Er & Hl). rewrite Er.
+      rewrite (outd_s_one s t r (PathEncProofs.wf_st G WF) Hl).
+      - reflexivity.
+      - intros e He. rewrite <- Er in He. apply (pairs_no_in_s i e Hi He). }
+    unfold sat_row, row_17a, mkrow. destruct (o_allow_empty (c_opts I)); cbn [sns lhs rhs]; rewrite X; lra.
   Qed.
 
   Lemma row_17b_sat i v : In i (layers k) -> In v (inner G) -> sat_row asg (row_17b G i v).
@@ -311,27 +329,52 @@ Section Complete.
     - apply Forall_flat_map. intros i Hi. apply Forall_forall. intros r Hr. apply in_map_iff in Hr. destruct Hr as (e & <- & He). apply row_19c_sat; assumption.
   Qed.
 
-  (* ---- nothing from the safety machinery or the subset constraints is present ---- *)
-  Lemma fix_layers_nil : fix_layers WI = [].
-  Proof. unfold fix_layers. change (w_fix WI) with (c_fix I). rewrite Hfix. cbn [zipn]. rewrite firstn_nil. destruct (o_safe_cons (w_opts WI)); reflexivity. Qed.
-  Lemma zero_set_nil : zero_set WI = [].
-  Proof. unfold zero_set. rewrite fix_layers_nil. destruct (o_zero (w_opts WI)); reflexivity. Qed.
-  Lemma fix_items_nil : fix_items WI = [].
-  Proof. unfold fix_items. rewrite fix_layers_nil. destruct (fixing_active WI); reflexivity. Qed.
-  Lemma one_set_nil : one_set WI = [].
-  Proof. unfold one_set. rewrite fix_items_nil. reflexivity. Qed.
-  Lemma edge_lb_zero e i : edge_lb WI e i = 0%Q.
-  Proof. unfold edge_lb. rewrite fix_items_nil. destruct (o_bounds (w_opts WI)); reflexivity. Qed.
-  Lemma prod_kind_two e i : prod_kind I e i = 2%N.
-  Proof. unfold prod_kind. fold WI. rewrite zero_set_nil, one_set_nil. reflexivity. Qed.
+  (* ---- the safety fixing ---- *)
+  Lemma edge_lb_le e i : (edge_lb WI e i <= inject_Z (mult i e))%Q.
+  Proof.
+    assert (M0 : (0 <= inject_Z (mult i e))%Q) by (change 0%Q with (inject_Z 0); rewrite <- Zle_Qle; apply mult_nonneg).
+    unfold edge_lb. destruct (o_bounds (w_opts WI)); [|exact M0].
+    destruct (find (fun x => edge_eqb (fst (fst x)) e && (snd (fst x) =? i)%N) (fix_items WI)) as [[[e' i'] m]|] eqn:F; [|exact M0].
+    apply find_some in F. destruct F as [Hin F]. cbn [fst snd] in F. apply andb_true_iff in F. destruct F as [F1 F2].
+    apply edge_eqb_eq in F1. apply N.eqb_eq in F2. subst e' i'. destruct (Hfixed e i m Hin) as [A B].
+    change (w_graph WI) with G. change (w_opts WI) with (c_opts I).
+    destruct (is_scc_edge G e) eqn:S.
+    - destruct (o_geq (c_opts I)) eqn:Gq; [|exact M0]. unfold qnat. rewrite <- Zle_Qle. apply A; reflexivity.
+    - rewrite (B eq_refl). change (inject_Z 1) with 1%Q. lra.
+  Qed.
+
+  Lemma zero_rows_sat : Forall (sat_row asg) (zero_rows WI).
+  Proof.
+    unfold zero_rows. apply Forall_forall. intros r Hr. apply in_map_iff in Hr. destruct Hr as ([e i] & <- & Hin). cbn [fst snd].
+    unfold sat_row, mkrow. cbn [sns lhs rhs eval fst snd]. rewrite asg_edge, (Hzero e i Hin). change (inject_Z 0) with 0%Q. lra.
+  Qed.
+
+  Lemma fix_rows_sat : Forall (sat_row asg) (fix_rows WI).
+  Proof.
+    unfold fix_rows. destruct (o_bounds (w_opts WI)); [constructor|]. apply Forall_flat_map. intros [[e i] m] Hin.
+    destruct (Hfixed e i m Hin) as [A B]. change (w_graph WI) with G. change (w_opts WI) with (c_opts I).
+    destruct (is_scc_edge G e) eqn:S.
+    - destruct (o_geq (c_opts I)) eqn:Gq; [|constructor]. constructor; [|constructor].
+      unfold sat_row, mkrow. cbn [sns lhs rhs eval fst snd]. rewrite asg_edge.
+      assert (qnat m <= inject_Z (mult i e))%Q by (unfold qnat; rewrite <- Zle_Qle; apply A; reflexivity). lra.
+    - constructor; [|constructor]. unfold sat_row, mkrow. cbn [sns lhs rhs eval fst snd]. rewrite asg_edge, (B eq_refl).
+      change (inject_Z 1) with 1%Q. lra.
+  Qed.
+
+  Lemma one_set_mult e i : In (e, i) (one_set WI) -> mult i e = 1%Z.
+  Proof.
+    unfold one_set. intros H. apply in_map_iff in H. destruct H as ([[e' i'] m] & Eq & H). cbn [fst] in Eq. injection Eq as -> ->.
+    apply filter_In in H. destruct H as [Hin S]. cbn [fst] in S. apply negb_true_iff in S.
+    apply (proj2 (Hfixed e i m Hin)). exact S.
+  Qed.
 
   (* ---- columns ---- *)
   Lemma walk_cols_sat : Forall (sat_col asg) (walk_cols WI).
   Proof.
     unfold walk_cols. change (w_graph WI) with G. change (w_k WI) with k. repeat rewrite Forall_app. repeat split.
     - apply Forall_flat_map. intros i Hi. apply Forall_forall. intros c Hc. apply in_map_iff in Hc. destruct Hc as (e & <- & He).
-      unfold sat_col, intcol. cbn [cvar clb cub cint]. rewrite asg_edge, edge_lb_zero. split; [|split].
-      + change 0%Q with (inject_Z 0). rewrite <- Zle_Qle. apply mult_nonneg.
+      unfold sat_col, intcol. cbn [cvar clb cub cint]. rewrite asg_edge. split; [|split].
+      + apply edge_lb_le.
       + apply (Hcap i e Hi He).
       + intros _. apply is_int_inject.
     - apply Forall_flat_map. intros i Hi. apply Forall_forall. intros c Hc. apply in_map_iff in Hc. destruct Hc as (v & <- & Hv).
@@ -360,14 +403,14 @@ Section Complete.
   Qed.
 
   (* the bit expansion block of one (edge, layer) pair *)
-  Lemma prod_block_sat i e : In i (layers k) -> In e (kept_edges I) ->
+  Lemma prod_block_sat i e : In i (layers k) -> In e (kept_edges I) -> prod_kind I e i = 2%N ->
     Forall (sat_col asg) (intprod_cols (pvar e i) 0%Q (prod_ub I e) (num_bits (prod_ub I e))) /\
     Forall (sat_row asg) (intprod_rows (evar e i) (W i) (pvar e i) 0%Q (prod_ub I e) (num_bits (prod_ub I e))).
   Proof.
-    intros Hi He. set (n := num_bits (prod_ub I e)). set (ub := prod_ub I e).
+    intros Hi He Hk2. set (n := num_bits (prod_ub I e)). set (ub := prod_ub I e).
     apply (intprod_rows_sem (evar e i) (W i) (pvar e i) 0%Q ub n ltac:(split; discriminate) ltac:(split; discriminate) ltac:(split; discriminate) asg).
     cbn zeta.
-    destruct (bits_spec n (mult i e) (conj (mult_nonneg i e) (Hbits i e Hi He))) as (BL & BB & BV).
+    destruct (bits_spec n (mult i e) (conj (mult_nonneg i e) (Hbits i e Hi He Hk2))) as (BL & BB & BV).
     destruct (Hw i Hi) as [[W0 W1] _].
     assert (Wub : (wt i <= ub)%Q).
     { unfold ub, prod_ub. destruct (c_scale_free I); [|exact W1]. pose proof (qmax_ge_l (kfdc_wmax I) (cap (kfdc_walk I) e)) as Hq. unfold wm in W1. lra. }
@@ -393,28 +436,95 @@ Section Complete.
     - apply Forall_flat_map. intros i Hi. apply Forall_forall. intros c Hc. apply in_map_iff in Hc. destruct Hc as (e & <- & _). apply pi_col_sat. exact Hi.
     - apply Forall_forall. intros c Hc. apply in_map_iff in Hc. destruct Hc as (i & <- & Hi).
       unfold sat_col, wcol_. cbn [cvar clb cub cint]. rewrite asg_w. destruct (Hw i Hi) as [[A B] C]. repeat split; assumption.
-    - apply Forall_flat_map. intros e He. apply Forall_flat_map. intros i Hi. rewrite prod_kind_two. cbn. apply (prod_block_sat i e Hi He).
+    - apply Forall_flat_map. intros e He. apply Forall_flat_map. intros i Hi.
+      destruct (N.eqb_spec (prod_kind I e i) 2%N) as [K2|_]; [apply (prod_block_sat i e Hi He K2)|constructor].
+  Qed.
+
+  Lemma given_rows_sat : Forall (sat_row asg) (kfdc_given_rows I).
+  Proof.
+    unfold kfdc_given_rows. destruct (c_given I) as [ws|] eqn:Gv; [|constructor].
+    assert (X : forall l n, (forall j w, nth_error l j = Some w -> (wt (N.of_nat (n + j)) == w)%Q) ->
+                Forall (sat_row asg) (map (fun iw => mkrow [(W (fst iw), 1%Q)] SEq (snd iw)) (zipn n l))).
+    { induction l as [|w l IH]; intros n H; cbn [zipn map]; constructor.
+      - unfold sat_row, mkrow. cbn [sns lhs rhs eval fst snd]. rewrite asg_w. pose proof (H 0%nat w eq_refl) as E0. rewrite Nat.add_0_r in E0. rewrite E0. lra.
+      - apply IH. intros j w' Hj. replace (S n + j)%nat with (n + S j)%nat by lia. apply H. exact Hj. }
+    apply X. intros j w Hj. cbn [plus]. apply (Hgiven ws j w eq_refl Hj).
   Qed.
 
   Lemma kfdc_rows_sat_c : Forall (sat_row asg) (kfdc_rows I).
   Proof.
-    unfold kfdc_rows, kfdc_given_rows. rewrite Hgiven, app_nil_r. apply Forall_flat_map. intros e He.
+    unfold kfdc_rows. rewrite Forall_app. split; [|apply given_rows_sat]. apply Forall_flat_map. intros e He.
     unfold kfdc_edge_rows. fold k. rewrite Forall_app. split.
-    - apply Forall_flat_map. intros i Hi. unfold kfdc_prod_rows. rewrite prod_kind_two. cbn. apply (prod_block_sat i e Hi He).
+    - apply Forall_flat_map. intros i Hi. unfold kfdc_prod_rows, prod_kind. fold WI.
+      destruct (mem_ei e i (zero_set WI)) eqn:Z0.
+      + cbn. constructor; [|constructor]. unfold sat_row, mkrow. cbn [sns lhs rhs eval fst snd].
+        apply mem_ei_In in Z0. rewrite asg_pi, (keptb_true e He), (Hzero e i Z0). change (inject_Z 0) with 0%Q. lra.
+      + destruct (mem_ei e i (one_set WI)) eqn:O1.
+        * cbn. constructor; [|constructor]. unfold sat_row, mkrow. cbn [sns lhs rhs eval fst snd].
+          apply mem_ei_In in O1. rewrite asg_pi, asg_w, (keptb_true e He), (one_set_mult e i O1). change (inject_Z 1) with 1%Q. lra.
+        * cbn. apply (prod_block_sat i e Hi He). unfold prod_kind. fold WI. rewrite Z0, O1. reflexivity.
     - constructor; [|constructor]. unfold sat_row, mkrow. cbn [sns lhs rhs].
       rewrite (eval_map_const asg (fun i => pvar e i) 1%Q), <- (Hflow e He), Qmult_1_l.
       apply sumq_ext. intros i _. rewrite asg_pi, (keptb_true e He). reflexivity.
+  Qed.
+
+  (* ---- subset constraints ---- *)
+  Lemma usedq_bin i e : bin (usedq i e). Proof. apply indq_bin. Qed.
+
+  Lemma zipn_nth {A} (l : list A) : forall n jn c, In (jn, c) (zipn n l) -> exists j, jn = N.of_nat (n + j) /\ nth_error l j = Some c.
+  Proof.
+    induction l as [|a l IH]; intros n jn c H; [destruct H|]. cbn [zipn] in H. destruct H as [H|H].
+    - injection H as <- <-. exists 0%nat. rewrite Nat.add_0_r. split; reflexivity.
+    - destruct (IH _ _ _ H) as (j & Ej & Hj). exists (S j). split; [rewrite Ej; f_equal; lia|exact Hj].
+  Qed.
+
+  Lemma sub_cols_sat : Forall (sat_col asg) (sub_cols WI).
+  Proof.
+    unfold sub_cols. destruct (all_cons WI) as [|c0 cs]; [constructor|]. rewrite Forall_app. split.
+    - apply Forall_flat_map. intros i _. apply Forall_forall. intros c Hc. apply in_map_iff in Hc. destruct Hc as (j & <- & _).
+      apply col_of_bin. rewrite asg_r. apply indq_bin.
+    - apply Forall_flat_map. intros i _. apply Forall_forall. intros c Hc. apply in_map_iff in Hc. destruct Hc as (e & <- & _).
+      apply col_of_bin. rewrite asg_used. apply usedq_bin.
+  Qed.
+
+  Lemma sub_rows_sat : Forall (sat_row asg) (sub_rows WI).
+  Proof.
+    unfold sub_rows. destruct (all_cons WI) as [|c0 cs] eqn:AC; [constructor|]. rewrite <- AC in *. clear AC c0 cs.
+    change (w_graph WI) with G. change (w_k WI) with k. repeat rewrite Forall_app. repeat split.
+    - apply Forall_flat_map. intros i Hi. apply Forall_flat_map. intros e He.
+      assert (M0 := mult_nonneg i e). constructor; [|constructor; [|constructor]].
+      + unfold sat_row, row_min1a, mkrow. cbn [sns lhs rhs eval fst snd]. rewrite asg_used, asg_edge. unfold usedq.
+        destruct (Z.ltb_spec 0 (mult i e)) as [L|L]; cbn [indq].
+        * assert (inject_Z 1 <= inject_Z (mult i e))%Q by (rewrite <- Zle_Qle; lia). change (inject_Z 1) with 1%Q in H. lra.
+        * assert (mult i e = 0%Z) by lia. rewrite H. change (inject_Z 0) with 0%Q. lra.
+      + unfold sat_row, row_min1b, mkrow. cbn [sns lhs rhs eval fst snd]. rewrite asg_used, asg_edge. unfold usedq.
+        destruct (Z.ltb_spec 0 (mult i e)) as [L|L]; cbn [indq].
+        * pose proof (Hcap i e Hi He). lra.
+        * assert (mult i e = 0%Z) by lia. rewrite H. change (inject_Z 0) with 0%Q. lra.
+    - apply Forall_flat_map. intros i Hi. apply Forall_forall. intros r Hr. apply in_map_iff in Hr. destruct Hr as ([jn c] & <- & Hjc).
+      destruct (zipn_nth _ _ _ _ Hjc) as (j & -> & Hj). cbn [plus]. destruct (Hcov j c Hj) as (Hch & Hc).
+      unfold sat_row, row_s7a, mkrow. cbn [sns lhs rhs fst snd]. rewrite eval_app.
+      rewrite (eval_map_const asg (fun e => uvar e i) 1%Q). cbn [eval fst snd]. rewrite asg_r.
+      assert (U : (sumq (fun e => asg (uvar e i)) (nodup_e c) == sumq (usedq i) (nodup_e c))%Q) by (apply sumq_ext; intros e _; rewrite asg_used; reflexivity).
+      rewrite U. change (w_cov WI) with (c_cov I).
+      destruct (N.eqb_spec i (ch (N.of_nat j))) as [->|_]; cbn [indq].
+      + lra.
+      + assert (0 <= sumq (usedq i) (nodup_e c))%Q by (apply wsumq_nonneg; intros e _; apply indq_nonneg). lra.
+    - apply Forall_forall. intros r Hr. apply in_map_iff in Hr. destruct Hr as (j & <- & Hj). apply in_seq in Hj.
+      destruct (nth_error (all_cons WI) j) as [c|] eqn:N; [|apply nth_error_None in N; lia].
+      destruct (Hcov j c N) as (Hch & _).
+      unfold sat_row, row_s7b, mkrow. cbn [sns lhs rhs]. rewrite (eval_map_const asg (fun i => R i (N.of_nat j)) 1%Q).
+      pose proof (wsumq_ge_term (fun i => asg (R i (N.of_nat j))) (layers k) (ch (N.of_nat j))
+                    ltac:(intros i _; cbv beta; rewrite asg_r; apply indq_nonneg) Hch) as T. cbv beta in T.
+      rewrite asg_r, N.eqb_refl in T. cbn [indq] in T. lra.
   Qed.
 
   (* C04 (cyclic), completeness: the walks with their weights satisfy the LP *)
   Theorem kfdc_complete : sat asg (encode_kfdc I).
   Proof.
     unfold sat, encode_kfdc. cbn [cols rows]. fold WI. split.
-    - unfold base_wcols, sub_cols. rewrite Hcons, app_nil_r. rewrite Forall_app. split; [apply walk_cols_sat|apply kfdc_cols_sat_c].
-    - unfold base_wrows, sub_rows, zero_rows, fix_rows. rewrite Hcons, zero_set_nil, fix_items_nil.
-      assert (X : (if o_bounds (w_opts WI) then [] else flat_map (fun x : PathEnc.edge * N * nat => let '(e, i, m) := x in
-                     if is_scc_edge (w_graph WI) e then if o_geq (w_opts WI) then [mkrow [(evar e i, 1%Q)] SGe (qnat m)] else []
-                     else [mkrow [(evar e i, 1%Q)] SEq 1%Q]) []) = (@nil row)) by (destruct (o_bounds (w_opts WI)); reflexivity).
-      rewrite X. cbn [map app]. rewrite app_nil_r. rewrite Forall_app. split; [apply walk_rows_sat|apply kfdc_rows_sat_c].
+    - unfold base_wcols. repeat rewrite Forall_app. repeat split; [apply walk_cols_sat|apply sub_cols_sat|apply kfdc_cols_sat_c].
+    - unfold base_wrows. repeat rewrite Forall_app. repeat split;
+        [apply walk_rows_sat|apply zero_rows_sat|apply fix_rows_sat|apply sub_rows_sat|apply kfdc_rows_sat_c].
   Qed.
 End Complete.
